@@ -351,7 +351,95 @@ fn c10_items() -> Vec<corpus::Item> {
     items
 }
 
+/// One sliced factory serving TWO different grammars whose mask computations alternate (batched decoding):
+/// the slicer and everything else the factory owns is shared by the parsers it creates, while lexer state ids
+/// are private to each parser. Every ordered pair of the slicer-stress grammars over one common vocabulary;
+/// joint walk to depth 4 (<= 2 successors per engine and step); both masks are compared with engines from a
+/// slice-free factory in every joint state.
+fn run_c10_shared_factory(ctx: &Ctx) {
+    use rayon::prelude::*;
+    let items: Vec<corpus::Item> = c10_items().into_iter().filter(|i| i.name.starts_with("sl-")).collect();
+    let sentences: Vec<Vec<u8>> = items.iter().flat_map(|i| i.sentences.clone()).collect();
+    let alpha: Vec<u8> = b"abcdxyz0123456789\"\\ {}:,[]<>!k\n-Z".to_vec();
+    let vocab = make_vocab(VKind::Multi3, &alpha, b"~", &sentences);
+    let lists = vec![Slices::Default, Slices::List(vec!["[a-z]+".to_string(), "[0-9]+".to_string()]), Slices::List(vec!["[a-z]{1,2}".to_string()])];
+    let depth = ctx.tier.pick(4, 6);
+    let ni = items.len();
+    let pairs: Vec<(usize, usize, usize)> = (0..lists.len()).flat_map(|l| (0..ni).flat_map(move |i| (0..ni).map(move |j| (l, i, j)))).filter(|(_, i, j)| i != j).collect();
+    pairs.par_iter().for_each(|(l, i, j)| {
+        if ctx.has_violations() || ctx.over_budget() {
+            return;
+        }
+        let (Ok(fs), Ok(fn_)) = (Factory::new(&vocab, &lists[*l]), Factory::new(&vocab, &Slices::None)) else { return };
+        let (gi, gj) = (&items[*i].g, &items[*j].g);
+        let (Ok(e1), Ok(e2), Ok(r1), Ok(r2)) = (fs.try_matcher(gi), fs.try_matcher(gj), fn_.try_matcher(gi), fn_.try_matcher(gj)) else {
+            ctx.count("shared_factory_pairs_inadmissible", 1);
+            return;
+        };
+        ctx.count("shared_factory_pairs", 1);
+        let mut stack = vec![(e1, e2, r1, r2, Vec::<(u32, u32)>::new())];
+        while let Some((mut e1, mut e2, mut r1, mut r2, hist)) = stack.pop() {
+            crate::watchdog::beat();
+            if e1.is_stopped() || e2.is_stopped() || r1.is_stopped() || r2.is_stopped() {
+                continue;
+            }
+            // alternate: grammar 1, grammar 2, grammar 1 again
+            let m1 = e1.compute_mask();
+            let m2 = e2.compute_mask();
+            let m1b = e1.clone().compute_mask();
+            let (x1, x2) = (r1.compute_mask(), r2.compute_mask());
+            ctx.states.fetch_add(1, Ordering::Relaxed);
+            ctx.validated.fetch_add(1, Ordering::Relaxed);
+            let (Ok(m1), Ok(m2), Ok(m1b), Ok(x1), Ok(x2)) = (m1, m2, m1b, x1, x2) else { continue };
+            if e1.last_step_stats().map(|s| s.slices_applied).unwrap_or(0) > 0 || e2.last_step_stats().map(|s| s.slices_applied).unwrap_or(0) > 0 {
+                ctx.count("shared_factory_slices_applied_states", 1);
+            }
+            for (which, got, exp) in [(1, &m1, &x1), (2, &m2, &x2), (1, &m1b, &x1)] {
+                if got.as_slice() != exp.as_slice() {
+                    let (la, lb) = (mask_to_vec(got), mask_to_vec(exp));
+                    let only_sliced: Vec<u32> = la.iter().filter(|t| !lb.contains(t)).copied().collect();
+                    let only_plain: Vec<u32> = lb.iter().filter(|t| !la.contains(t)).copied().collect();
+                    ctx.violation(Violation {
+                        check: "shared_factory_masks_differ".into(),
+                        class: "slicer-changes-mask".into(),
+                        signature: format!("shared|{}|{}|{:?}|{:?}|{}", items[*i].name, items[*j].name, lists[*l], hist, which),
+                        detail: json!({"kind": "shared_factory", "grammar_1": gi.to_json(), "grammar_2": gj.to_json(), "vocab": vocab.to_json(), "slices": lists[*l].to_json(), "joint_history": hist, "engine": which,
+                            "only_with_slices": only_sliced.iter().map(|t| (*t, show(&vocab.tokens[*t as usize]))).collect::<Vec<_>>(),
+                            "only_without_slices": only_plain.iter().map(|t| (*t, show(&vocab.tokens[*t as usize]))).collect::<Vec<_>>()}),
+                    });
+                    return;
+                }
+            }
+            if hist.len() >= depth {
+                continue;
+            }
+            let pick = |m: &toktrie::SimpleVob| -> Vec<u32> {
+                let v = mask_to_vec(m);
+                match v.len() {
+                    0 => vec![],
+                    1 => vec![v[0]],
+                    n => vec![v[n / 3], v[n - 1]],
+                }
+            };
+            for t1 in pick(&m1) {
+                for t2 in pick(&m2) {
+                    let (mut a, mut b, mut c, mut d) = (e1.clone(), e2.clone(), r1.clone(), r2.clone());
+                    if a.consume_token(t1).is_err() || c.consume_token(t1).is_err() || b.consume_token(t2).is_err() || d.consume_token(t2).is_err() {
+                        continue;
+                    }
+                    ctx.transitions.fetch_add(2, Ordering::Relaxed);
+                    let mut h = hist.clone();
+                    h.push((t1, t2));
+                    stack.push((a, b, c, d, h));
+                }
+            }
+        }
+    });
+}
+
 pub fn run_c10(ctx: &Ctx) -> Coverage {
+    run_c10_shared_factory(ctx);
+    ctx.note(format!("shared-factory pass done at {:.1}s", ctx.elapsed()));
     let mut items = c10_items();
     if !ctx.quick() {
         items.extend(crate::gen::lark_family(3));
@@ -384,6 +472,6 @@ pub fn run_c10(ctx: &Ctx) -> Coverage {
     }
     ctx.count("slice_lists", lists.len() as u64);
     Coverage::StateGraph {
-        rule: format!("lock-step BFS over pairs (engine from a sliced factory, engine from the slice-free factory) on the same vocabulary, {} slice lists (default JSON slices + ordered lists from a menu of 8 regexes), depth {depth}, <= {max_states} pairs per job; masks compared word for word in every pair", lists.len()),
+        rule: format!("lock-step BFS over pairs (engine from a sliced factory, engine from the slice-free factory) on the same vocabulary, {} slice lists (default JSON slices + ordered lists from a menu of 8 regexes), depth {depth}, <= {max_states} pairs per job; masks compared word for word in every pair; plus the shared-factory pass: one sliced factory serving two different grammars with alternating mask computations (every ordered pair of the slicer-stress grammars, 3 slice lists, joint depth 4/6), both masks compared with slice-free engines in every joint state", lists.len()),
     }
 }
